@@ -56,6 +56,8 @@ type importer struct {
 	r io.Reader
 	s *bufio.Scanner
 	t Template
+
+	failed bool
 }
 
 func NewImporter(r io.Reader) Importer {
@@ -77,11 +79,24 @@ func (i *importer) WithTemplate(t Template) Importer {
 }
 
 func (i *importer) Import() bool {
-	return i.s.Scan()
+	if i.s.Scan() {
+		return true
+	}
+
+	// a read failure or an oversize line must reach GetRow once, not end the stream silently
+	if i.s.Err() != nil && !i.failed {
+		i.failed = true
+
+		return true
+	}
+
+	return false
 }
 
 func (i *importer) GetRow() (Row, error) {
 	if i.s.Err() != nil {
+		i.failed = true
+
 		return nil, fmt.Errorf("%w", i.s.Err())
 	}
 
